@@ -48,6 +48,14 @@ func checkC08(ctx *Ctx) {
 			}
 		}
 	}
+	for pi, pol := range c08Policies {
+		for rep := 0; rep < ctx.N(2, 10); rep++ {
+			if ctx.Mine(pi*2 + rep + 1) {
+				ctx.SetCurrent(fmt.Sprintf("C08 sampler against writers %s %d", pol, rep))
+				c08SamplerWriters(ctx, pol, rep)
+			}
+		}
+	}
 	n := ctx.N(100, 400)
 	for pi, pol := range c08Policies {
 		for h := 0; h < n; h++ {
@@ -500,5 +508,82 @@ func c08BigBatch(ctx *Ctx, pol string, i int) {
 				}
 			}
 		}
+	}
+}
+
+// c08SamplerWriters: a memory limit that is never reached, the background expiry sampler running every
+// millisecond, and writers that give their keys a deadline in the past (the entry stays stored until something
+// collects it) and write them again without a deadline. With usage far below the limit nothing may remove a
+// key that has no deadline, whatever the policy; and at rest the usage figure the limit is compared with must
+// equal the accounted size of what is stored.
+func c08SamplerWriters(ctx *Ctx, pol string, i int) {
+	ac := &asyncCounter{}
+	setHook(ac.hook)
+	defer setHook(nil)
+	in, err := NewInst(InstOpts{MaxMemory: 1 << 40, Policy: pol, EvictionInterval: time.Millisecond, EvictionSample: 40})
+	if err != nil {
+		ctx.Broken(err.Error())
+		return
+	}
+	defer func() {
+		ac.wait(20 * time.Second)
+		time.Sleep(5 * time.Millisecond)
+		in.Close()
+	}()
+	const nW, nKeys, rounds = 6, 30, 25
+	var wg sync.WaitGroup
+	finals := make([]map[string]string, nW)
+	for w := 0; w < nW; w++ {
+		finals[w] = map[string]string{}
+		wg.Add(1)
+		go func(w int) {
+			defer wg.Done()
+			for r := 0; r < rounds; r++ {
+				for k := 0; k < nKeys; k++ {
+					key := fmt.Sprintf("sw%d:%d", w, k)
+					val := fmt.Sprintf("fresh-%d-%d-%s", r, k, strings.Repeat("x", (k*7+r)%40))
+					in.Do("SET", key, "old")
+					in.Do("PEXPIREAT", key, "1")
+					if v, _, crash := in.Do("SET", key, val); crash == "" && !v.IsError() {
+						finals[w][key] = val
+					}
+				}
+			}
+		}(w)
+	}
+	wg.Wait()
+	if !ac.wait(30 * time.Second) {
+		ctx.Inconclusive("sampler-writers: async cache goroutines did not quiesce")
+		return
+	}
+	time.Sleep(20 * time.Millisecond) // a few more sampler rounds; nothing has a deadline any more
+	d := in.S.VerifDump()
+	used := memUsed(in)
+	acc, aerr := in.S.VerifAccountedSize()
+	used2 := memUsed(in)
+	ctx.Eval(1)
+	ctx.Class(pol + "|sampler-writers")
+	lost, first, total := 0, "", 0
+	for w := range finals {
+		for key, val := range finals[w] {
+			total++
+			if v, ok := d.DBs[0][key]; !ok || v.Str != val {
+				lost++
+				if first == "" {
+					first = fmt.Sprintf("%s (present=%v, holds %q, last acknowledged value %q)", key, ok, trunc(v.Str, 30), trunc(val, 30))
+				}
+			}
+		}
+	}
+	if lost > 0 {
+		ctx.Violate(Violation{Kind: "removed_below_limit", Lane: "sampler-writers-" + pol,
+			What: fmt.Sprintf("policy %s, usage %d far below the limit: %d of %d keys without a deadline (written over an expired, still stored entry while the 1 ms expiry sampler was running) are gone or changed at rest; first: %s", pol, used, lost, total, first),
+			Case: map[string]interface{}{"policy": pol, "index": i}, Key: "c08|sampler-writers|lost|" + pol})
+		return
+	}
+	if aerr == nil && used == used2 && used != acc {
+		ctx.Violate(Violation{Kind: "usage", Lane: "sampler-writers-" + pol,
+			What: fmt.Sprintf("policy %s: at rest the usage figure that the limit is compared with is %d, the %d keys stored account for %d (difference %+d)", pol, used, countKeysDump(d), acc, used-acc),
+			Case: map[string]interface{}{"policy": pol, "index": i}, Key: "c08|sampler-writers|usage|" + pol})
 	}
 }
